@@ -591,6 +591,9 @@ func RunC18(tier string) int {
 			}
 		}
 	})
+	if report.Part("rerun") {
+		c18InterruptedRerun(run, st, tierN(tier, 8, 60))
+	}
 	run.Assume("exec.CommandContext refuses to start a command once the context is cancelled; a command attempted before the cancellation may legitimately still start")
 	run.Assume("the interactive path is driven on a pseudo terminal that answers the colour / cursor queries like a terminal emulator; real terminal emulators are not involved")
 	return run.Finish()
